@@ -115,6 +115,15 @@ theorem alookupD_cases (m : Nat) (l : List (Nat × List Ctx)) :
       · exact Or.inl h
       · exact Or.inr ⟨p, by simp [hp], h⟩
 
+theorem cmap_not_empty (c : Cfg) (m : Nat) : (c.cmap m).isEmpty = false := by
+  simp [Cfg.cmap, Cfg.mctx]
+
+/-- flat and hierarchical machines enter exactly the configured contexts -/
+theorem ctxs_configured (c : Cfg) (tgt : Nat) : ctxsFor c tgt = configured c tgt := by
+  cases tgt with
+  | zero => rfl
+  | succ m => simp [ctxsFor, configured, cmap_not_empty]
+
 theorem ctxs_shape {c : Cfg} {L : Nat} (hwf : WF c L) (tgt : Nat) :
     ∃ xs, ctxsFor c tgt = c.mbase ++ Ctx.ident :: xs ∧ Ctx.ident ∉ xs := by
   have hnil : ctxsFor c tgt = c.mbase ++ Ctx.ident :: [] ∨
@@ -122,9 +131,7 @@ theorem ctxs_shape {c : Cfg} {L : Nat} (hwf : WF c L) (tgt : Nat) :
     cases tgt with
     | zero => left; simp [ctxsFor, Cfg.mctx]
     | succ m =>
-      by_cases h : c.hsm = true
-      · left; simp [ctxsFor, Cfg.mctx, h]
-      · right; exact ⟨m, by simp [ctxsFor, Cfg.mctx, Cfg.cmap, h]⟩
+      right; exact ⟨m, by simp [ctxs_configured, configured, Cfg.mctx, Cfg.cmap]⟩
   rcases hnil with h | ⟨m, h⟩
   · exact ⟨[], h, by simp⟩
   · refine ⟨_, h, ?_⟩
@@ -141,8 +148,7 @@ theorem ident_not_mbase {c : Cfg} {L : Nat} (hwf : WF c L) : Ctx.ident ∉ c.mba
 theorem ctxs_ident (c : Cfg) (tgt : Nat) : Ctx.ident ∈ ctxsFor c tgt := by
   cases tgt with
   | zero => simp [ctxsFor, Cfg.mctx]
-  | succ m =>
-    by_cases h : c.hsm = true <;> simp [ctxsFor, Cfg.mctx, Cfg.cmap, h]
+  | succ m => simp [ctxs_configured, configured, Cfg.mctx, Cfg.cmap]
 
 theorem ctxs_ne_nil (c : Cfg) (tgt : Nat) : ctxsFor c tgt ≠ [] := by
   intro h; have := ctxs_ident c tgt; simp [h] at this
@@ -655,15 +661,6 @@ theorem alookupD_nil_of {m : Nat} {l : List (Nat × List Ctx)} (h : ∀ p ∈ l,
   · exact h0
   · rw [h0]; exact h p hp
 
-theorem ctxs_configured {c : Cfg} (hx : c.hsm = false ∨ ∀ p ∈ c.extra, p.2 = []) (tgt : Nat) :
-    ctxsFor c tgt = configured c tgt := by
-  cases tgt with
-  | zero => rfl
-  | succ m =>
-    rcases hx with h | h
-    · simp [ctxsFor, configured, h]
-    · simp [ctxsFor, configured, Cfg.cmap, alookupD_nil_of h]
-
 /-- the monitor's state for a thread, read off the thread -/
 def monOf (th : Thread) : MonSt :=
   { depth := th.frames.length, pe := th.pend, st := held th, ex := th.exiting }
@@ -704,7 +701,7 @@ theorem Inv.exit_shape {c : Cfg} {s : LState} (hI : Inv c s) {t : Nat} {x : Ctx}
       rfl
     | succ k => simp [hf, List.replicate_succ] at h1
 
-theorem CM.step {c : Cfg} (hx : c.hsm = false ∨ ∀ p ∈ c.extra, p.2 = [])
+theorem CM.step {c : Cfg}
     (eng : Nat → Nat → Nat) {s : LState} (hI : Inv c s) (hC : CM c s) (t : Nat) :
     CM c (step c eng s t) := by
   rcases step_cases c eng s t with h | ⟨x, r, f, fs, s1, hp, hf, he, h⟩ |
@@ -733,7 +730,7 @@ theorem CM.step {c : Cfg} (hx : c.hsm = false ∨ ∀ p ∈ c.extra, p.2 = [])
       · exact h0
       · exact absurd (hI.body_current ⟨h0, hp, hex⟩) hc
     refine hC.update t _ (.callBegin t tgt tag) rfl (fun i => rfl) rfl ?_
-    simp [ctxStep, monOf, hex, hnil, held, ctxs_configured hx]
+    simp [ctxStep, monOf, hex, hnil, held, ctxs_configured]
   · rw [h]
     have hex : (s.th t).exiting = false := hI.not_exiting_of_prog (by simp [hprog])
     refine hC.update t _ (.cb t a) rfl (fun i => rfl) rfl ?_
@@ -755,27 +752,25 @@ theorem CM.step {c : Cfg} (hx : c.hsm = false ∨ ∀ p ∈ c.extra, p.2 = [])
     refine hC.update t _ (.exit t x) (by simp) (fun i => by rw [emit_th, setTh_th, exitCtx_th]) rfl ?_
     simp [ctxStep, monOf, hp, hf, held]
 
-theorem CM.run {c : Cfg} {L : Nat} (hwf : WF c L) (hx : c.hsm = false ∨ ∀ p ∈ c.extra, p.2 = [])
+theorem CM.run {c : Cfg} {L : Nat} (hwf : WF c L)
     (eng : Nat → Nat → Nat) (σ : List Nat) :
     ∀ {s : LState}, Inv c s → CM c s → CM c (runSched c eng s σ) := by
   induction σ with
   | nil => intro s _ h; exact h
-  | cons t σ ih => intro s hI h; exact ih (hI.step hwf eng t) (h.step hx eng hI t)
+  | cons t σ ih => intro s hI h; exact ih (hI.step hwf eng t) (h.step eng hI t)
 
 theorem CM.init (c : Cfg) (progs : Nat → List Op) (ms : Nat) : CM c (init progs ms) := by
   simp [CM, ctxMonRun, Locked.init, monOf, held]
 
-theorem contexts_partial (c : Cfg) (L : Nat) (hwf : WF c L)
-    (hx : c.hsm = false ∨ ∀ p ∈ c.extra, p.2 = []) :
+theorem contexts_held (c : Cfg) (L : Nat) (hwf : WF c L) :
     ∀ (eng : Nat → Nat → Nat) (progs : Nat → List Op) (ms : Nat) (σ : List Nat),
       contextsOrder (configured c) (runSched c eng (init progs ms) σ).trace = true := by
   intro eng progs ms σ
-  have := CM.run hwf hx eng σ (Inv.init c progs ms) (CM.init c progs ms)
+  have := CM.run hwf eng σ (Inv.init c progs ms) (CM.init c progs ms)
   unfold CM at this
   simp [contextsOrder, this]
 
-theorem released (c : Cfg) (L : Nat) (hwf : WF c L)
-    (hx : c.hsm = false ∨ ∀ p ∈ c.extra, p.2 = []) (eng : Nat → Nat → Nat)
+theorem released (c : Cfg) (L : Nat) (hwf : WF c L) (eng : Nat → Nat → Nat)
     (progs : Nat → List Op) (ms : Nat) (σ : List Nat) (t : Nat) :
     let s := runSched c eng (init progs ms) σ
     (s.th t).frames = [] →
@@ -783,7 +778,7 @@ theorem released (c : Cfg) (L : Nat) (hwf : WF c L)
       ∃ f, ctxMonRun (configured c) s.trace = some f ∧ f t = {} := by
   intro s hf
   have hI : Inv c s := Inv.run hwf eng σ (Inv.init c progs ms)
-  have hC : CM c s := CM.run hwf hx eng σ (Inv.init c progs ms) (CM.init c progs ms)
+  have hC : CM c s := CM.run hwf eng σ (Inv.init c progs ms) (CM.init c progs ms)
   refine ⟨?_, ?_, _, hC, ?_⟩
   · intro hh
     have := (hI.cur t).2 hh
@@ -793,17 +788,6 @@ theorem released (c : Cfg) (L : Nat) (hwf : WF c L)
     simp [held_nil hf] at this
   · obtain ⟨h1, h2⟩ := (hI.ph t).of_nil hf
     simp [monOf, hf, h1, h2, held]
-
-theorem contexts_counterexample :
-    ¬ ∀ (eng : Nat → Nat → Nat) (progs : Nat → List Op) (ms : Nat) (σ : List Nat),
-      contextsOrder (configured { hsm := true, base := [], extra := [(0, [.user 7])] })
-        (runSched { hsm := true, base := [], extra := [(0, [.user 7])] } eng
-          (init progs ms) σ).trace = true := by
-  intro h
-  have := h (fun _ m => m) (fun t => if t = 0 then [.call 1 0, .cb 0, .ret false] else []) 0
-    [0, 0, 0, 0]
-  revert this
-  decide
 
 /-! ## serializability -/
 
